@@ -130,6 +130,24 @@ def _same_up_to_nan(rb: bytes, eb: bytes, d: str) -> bool:
                 (a.view(u)[~na] == b.view(u)[~nb]).all())
 
 
+def _value_symptom(want: np.ndarray, got: np.ndarray) -> str:
+    """'snan-quieted' when the only differences are signalling NaNs that
+    came back with the quiet bit set (payload otherwise intact), else
+    'value'."""
+    if want.dtype.kind != "f" or want.shape != got.shape:
+        return "value"
+    u = f"u{want.itemsize}"
+    w, g = want.view(u), got.view(u)
+    mant = {2: 10, 4: 23, 8: 52}[want.itemsize]
+    quiet = np.array(1 << (mant - 1), dtype=u)
+    diff = w != g
+    if not diff.any():
+        return "value"
+    ok = np.isnan(want[diff]) & ((w[diff] & quiet) == 0) & (
+        g[diff] == (w[diff] | quiet))
+    return "snan-quieted" if ok.all() else "value"
+
+
 def read_all(ds_, fmt: str, comp: str, tier: str) -> dict:
     out = {}
     ifaces = ["sync", "concurrent"]
@@ -168,7 +186,9 @@ def numeric_case(args) -> dict:
         rng = np.random.default_rng(seed * 7919 + li)
         expected = []  # per accepted example: {name: bytes}
         info = []
-        E = 2 * len(PRES)
+        # 9 presentations, 4 examples per shard: after 36 examples every
+        # presentation has been the first, ..., last example of a shard
+        E = 4 * len(PRES)
         with ds_.filler() as f:
             for e in range(E):
                 how = PRES[e % len(PRES)]
@@ -246,7 +266,7 @@ def numeric_case(args) -> dict:
                         k = int(np.argmax(a.view(f"u{a.itemsize}") !=
                                           b.view(f"u{a.itemsize}")))
                         out["bad"].append(
-                            ("value", iface,
+                            (_value_symptom(a, b), iface,
                              f"{fmt}/{comp or 'none'} attribute a{j} "
                              f"{d}{s} (position {j} of 4) presentation "
                              f"{how}: reader {iface} returns bits "
@@ -440,7 +460,8 @@ def run(ctx):
         "dtype; all 2^8 / 2^16 values of the 8/16-bit dtypes in one array; "
         "9 presentations (C, Fortran, strided, negative stride, big-endian, "
         "narrower dtype, NumPy scalar / list, read-only, buffer mutated "
-        "after the call); readers sync, concurrent, async, Rust, tf.data; "
+        "after the call), each at every position within a shard; readers "
+        "sync, concurrent, async, Rust, tf.data; "
         "oracle: bytes of the value read (C order, little endian, declared "
         "dtype; TFRecord integers widened to int64) == bytes written")
     ctx.cov["exhaustive"] = True
